@@ -74,6 +74,21 @@ func (x *Exec) call(fr *Frame, st *State, in ssa.CallInstruction, pos token.Pos)
 	if fv.K == KFunc && fv.Term != nil && x.rootFrame != nil && x.rootFrame.contract != nil && x.rootFrame.contract.PureCallbacks {
 		return x.callbackCall(fv, c.Value.Type(), args, resT)
 	}
+	// the enclosing function itself calling a closure through a local variable that closures capture (var iter func(..);
+	// iter = func(..){ .. iter(x) .. }; iter(e)): the variable is a cell; when the only store to it anywhere (this
+	// function and every function literal nested in it) is one closure literal, stored where it dominates the call, the
+	// callee's identity is known
+	if u, ok := c.Value.(*ssa.UnOp); ok && u.Op == token.MUL {
+		if cell, isAlloc := u.X.(*ssa.Alloc); isAlloc && cell.Parent() == fr.fn {
+			if mk := singleClosureStore(fr.fn, cell, in); mk != nil {
+				cv := x.val(fr, mk)
+				if cv != nil && cv.K == KFunc && cv.Fn != nil {
+					x.trusted["the function variable "+exprText(c.Value)+" called by "+funcDisplayName(fr.fn)+" holds the closure literal it is assigned (assigned exactly once, before the call; no function literal assigns a captured function variable)"] = true
+					return x.callStatic(fr, st, cv.Fn, args, cv.Bind, resT, pos)
+				}
+			}
+		}
+	}
 	// a closure calling a sibling closure through a variable of the enclosing function that is assigned exactly once,
 	// to a closure literal (isIn := func..; iter = func(){ .. isIn(x) .. }): the callee's identity is known
 	if fr == x.rootFrame && x.rootFrame != nil && x.rootFrame.fn.Parent() != nil {
@@ -1678,4 +1693,84 @@ func (x *Exec) siblingThroughCell(fn *ssa.Function, fv *ssa.FreeVar, bind []*Val
 		}
 	}
 	return sfn, sbind
+}
+
+// singleClosureStore: the closure literal stored into the local cell, when that store is the only store to the cell in
+// fn, it dominates the call instruction, and no function literal nested in fn stores through a captured variable of the
+// cell's type (so no closure can re-assign the cell).
+func singleClosureStore(fn *ssa.Function, cell *ssa.Alloc, call ssa.CallInstruction) *ssa.MakeClosure {
+	var mk *ssa.MakeClosure
+	var storeInstr ssa.Instruction
+	stores := 0
+	for _, b := range fn.Blocks {
+		for _, in := range b.Instrs {
+			if st, ok := in.(*ssa.Store); ok && st.Addr == ssa.Value(cell) {
+				stores++
+				if m, ok := st.Val.(*ssa.MakeClosure); ok {
+					mk = m
+					storeInstr = in
+				}
+			}
+		}
+	}
+	if stores != 1 || mk == nil {
+		return nil
+	}
+	// every other use of the cell must be a load or a capture by a closure literal (the address goes nowhere else)
+	for _, ref := range *cell.Referrers() {
+		switch r := ref.(type) {
+		case *ssa.Store:
+			if r.Addr != ssa.Value(cell) {
+				return nil
+			}
+		case *ssa.UnOp:
+			if r.Op != token.MUL {
+				return nil
+			}
+		case *ssa.MakeClosure, *ssa.DebugRef:
+		default:
+			return nil
+		}
+	}
+	var nested func(f *ssa.Function) bool
+	nested = func(f *ssa.Function) bool {
+		for _, a := range f.AnonFuncs {
+			for _, b := range a.Blocks {
+				for _, in := range b.Instrs {
+					if st, ok := in.(*ssa.Store); ok {
+						if fv, isFV := st.Addr.(*ssa.FreeVar); isFV && types.Identical(fv.Type(), cell.Type()) {
+							return false
+						}
+					}
+				}
+			}
+			if !nested(a) {
+				return false
+			}
+		}
+		return true
+	}
+	if !nested(fn) {
+		return nil
+	}
+	sb, cb := storeInstr.Block(), call.Block()
+	if sb == cb {
+		si, ci := -1, -1
+		for i, in := range sb.Instrs {
+			if in == storeInstr {
+				si = i
+			}
+			if in == ssa.Instruction(call) {
+				ci = i
+			}
+		}
+		if si < 0 || ci < 0 || si >= ci {
+			return nil
+		}
+		return mk
+	}
+	if !sb.Dominates(cb) {
+		return nil
+	}
+	return mk
 }
